@@ -1161,7 +1161,7 @@ class Function(object):
             # if monotonic == False and monotonic_on is nonempty, we know that
             # monotonicity was specified with MONOTONIC ON <arg>, so there's
             # exactly 1 value there
-            monotonic_tokens = 'MONOTONIC ON {}{}'.format(self.monotonic_on[0],
+            monotonic_tokens = 'MONOTONIC ON {}{}'.format(protect_name(self.monotonic_on[0]),
                                                           sep)
 
         return "CREATE FUNCTION %(keyspace)s.%(name)s(%(arg_list)s)%(sep)s" \
